@@ -60,7 +60,7 @@ class C12(Check):
     STUB = ['peer mode: scripted SECoP server', 'TCP (sim.net)', 'hardware (fake driver)', 'clock']
     ASSUMPTIONS = ['values are compared in wire form by the harness\' own conversion (floats within resolution)',
                    'a registration is ordered against the message stream by a sync marker the peer sends']
-    PROBES = ('c12.peer-mode', 'c12.e2e-mode', 'c12.proxy-mode', 'c12.driver-update', 'c12.mirror-compared',
+    PROBES = ('c12.peer-mode', 'c12.small-receive-buffer', 'c12.e2e-mode', 'c12.proxy-mode', 'c12.driver-update', 'c12.mirror-compared',
               'c12.concurrent-writes', 'c12.malformed', 'c12.future-timestamp',
               'c12.shorthand', 'c12.raising-callback', 'c12.oneshot-callback', 'c12.proxy-drop',
               'c12.node-restart-added', 'c12.node-restart-changed', 'c12.node-restart-same', 'c12.partial-struct-written')
@@ -68,7 +68,8 @@ class C12(Check):
     def gen_case(self, rng, tier):
         mode = rng.choice(['peer', 'peer', 'e2e', 'e2e', 'proxy'])
         shape = {'p_switch': rng.choice([0.1, 0.3]), 'line_gaps': rng.choice([0, 0, 10]),
-                 'seg_bias': rng.choice([1.0, 0.6, 0.2]), 'lat_bias': rng.choice([1.0, 0.7]), 'mode': mode}
+                 'seg_bias': rng.choice([1.0, 0.6, 0.2]), 'lat_bias': rng.choice([1.0, 0.7]), 'mode': mode,
+                 'rcvbuf': rng.choice([None, None, 16, 40])}
         ops = []
         if mode == 'peer':
             desc = gen_description(rng)
@@ -231,6 +232,10 @@ class C12(Check):
         world = ctx['world'] = env.World(sim, shape['seg_bias'], shape['lat_bias'])
         ctx['clientlog'] = []
         HasIO.ioDict.clear()
+        # whoever accepts a connection takes only a few bytes at a time: longer requests need several send calls
+        world.net.accept_rcvbuf = shape.get('rcvbuf')
+        if shape.get('rcvbuf'):
+            sim.count('c12.small-receive-buffer')
         if shape['mode'] == 'peer':
             sim.count('c12.peer-mode')
             self.main_peer(sim, case, ctx, world)
